@@ -66,11 +66,9 @@ class BaseMQTTGateway(Gateway):
 
         Return a mysensors command string.
         """
-        topic_levels = topic.split("/")
-        topic_levels = not_prefix = topic_levels[-5:]
-        prefix_end_idx = topic.find("/".join(not_prefix)) - 1
-        prefix = topic[:prefix_end_idx]
-        if prefix != self.tasks.transport.in_prefix:
+        topic_levels = topic.split("/")[-5:]
+        in_prefix = self.tasks.transport.in_prefix
+        if len(topic_levels) != 5 or topic != f"{in_prefix}/{'/'.join(topic_levels)}":
             return None
         if qos and qos > 0:
             ack = "1"
